@@ -7,6 +7,9 @@ verus! {
 //@include prelude/tensor.rs
 //@include prelude/indicatif.rs
 
+// loops are verified in the context of their function (facts about values bound before a loop need no restating in
+// its invariant: hoisting a sub-expression out of a loop must not break the proof)
+#[verifier::loop_isolation(false)]
 pub mod unit_hmc {
     use super::pbar::*;
     use vstd::prelude::*;
